@@ -558,12 +558,12 @@ def T_handler(it, ctx, args, st):
     yield st, it.ok(h.fields[1])
 
 
-def server_metadata(prog, it):
+def server_metadata(prog, it, crate=None, pat=r'::__(E\d+)Endpoint<', exclude=None):
     """{endpoint: (method, [('lit', bytes) | ('param', name)])} from the MIR of EndpointMetadata::method / path of the expansion"""
     out, handles = {}, {}
     for k, f in prog.fns.items():
-        m = re.search(r'::__(E\d+)Endpoint<', f.header)
-        if not (k.startswith(ep.CRATE + '::') and m):
+        m = re.search(pat, f.header)
+        if not (k.startswith((crate or ep.CRATE) + '::') and m) or (exclude and exclude in f.header):
             continue
         name = m.group(1).lower()
         last = re.sub(r'#\d+$', '', k.rsplit('::', 1)[-1])
@@ -605,9 +605,9 @@ def cow_text(it, st, cow):
     return v
 
 
-def client_fn(prog, trait, method):
-    c = [k for k in prog.fns if k.startswith(ep.CRATE + '::') and re.search(r'::%s(#\d+)?$' % method, k)
-         and f'&{trait}Client<' in prog.fns[k].header]
+def client_fn(prog, trait, method, crate=None):
+    c = [k for k in prog.fns if k.startswith((crate or ep.CRATE) + '::') and re.search(r'::%s(#\d+)?$' % method, k)
+         and re.search(r'[&:]%sClient<' % re.escape(trait), prog.fns[k].header)]
     if len(c) != 1:
         raise Inconclusive(f'C04 harness: client method {trait}::{method} not found uniquely: {c}')
     return c[0]
@@ -718,10 +718,10 @@ def report(rep, case, m, what):
 
 def run_case(rep, it, dec, prog, case, st, tenv, flavour='blocking'):
     me = st.ref(Agg(case.trait + 'Client', (Agg('MockClient', ()),)))
-    fn = client_fn(prog, case.trait, case.name)
+    fn = client_fn(prog, case.trait, case.name, getattr(case, 'crate', None))
     np_ = delivered = 0
     def outcomes():
-        if flavour == 'blocking':
+        if flavour.startswith('blocking'):
             yield from it.run(fn, [me] + case.args, st, tenv)
             return
         for s1, co in it.run(fn, [me] + case.args, st, tenv):
@@ -770,7 +770,138 @@ def run_case(rep, it, dec, prog, case, st, tenv, flavour='blocking'):
         rep.inconc(f'vacuity: {case.trait}.{case.name} never delivers')
 
 
+# ------------------------------------------------------------------ generated client -> generated endpoints (real conjure-codegen output)
+GCRATE = 'verif_service'
+
+
+def M_to_plain(it, ctx, args, st):
+    """ToPlain::to_plain (Plain::fmt through a Display adaptor and ToString): the PLAIN text of the value.  Behind `&dyn Plain` the
+    static type is gone; the harness definition only uses integer (i32), string, bearer-token and optional arguments, so the value's
+    shape identifies it (stated).  Integers: canonical decimal (C12 decides Plain for every type against its Display)."""
+    v = args[0]
+    while isinstance(v, Ptr):
+        t = st.deref(v)
+        if isinstance(t, BStr):
+            break
+        v = t
+    if isinstance(v, Ptr):
+        yield st, sval(st, v)
+        return
+    if z3.is_expr(v) and z3.is_bv(v) and v.size() == 32:
+        ctx2 = type('C', (), {'self_ty': ('path', 'i32', ())})()
+        yield from models_std.M_int_to_string(it, ctx2, [v], st)
+        return
+    if isinstance(v, Agg) and v.name.endswith('BearerToken'):
+        yield st, v.fields[0]
+        return
+    raise Unsupported(f'to_plain of {v!r:.80}')
+
+
+GEN_MODELS = [(r'<.* as conjure_object::(?:plain::)?ToPlain>::to_plain', M_to_plain)]
+
+
+class GenCase(Case):
+    crate = GCRATE
+
+    def concrete(self, m):
+        op = Case.concrete(self, m)
+        op['op'] = 'loopback_gen'
+        for k, (kind, v) in self.syms.items():
+            if kind == 'list_i32':
+                out = []
+                for x in v:
+                    n = m.eval(x, True).as_long()
+                    out.append(n - (1 << 32) if n >= 1 << 31 else n)
+                op[k] = out
+        return op
+
+
+def run_generated(rep, tier):
+    prog = ep.harness_program('gen-crates/service', GCRATE, ['conjure_serde'])
+    base = [m for m in ep.MODELS if 'private::response' not in m[0]]
+    cmods, _ = bodyio.cursor_models(bodyio.Doc(), {})
+    models = GEN_MODELS + ASYNC_CLIENT_MODELS + CLIENT_MODELS + SERVER_MODELS + DOC_MODELS + c06.MODELS + c18.MODELS + cmods + bodyio.ASYNC_MODELS + base + models_http.MODELS + models_serde.MODELS + models_std.MODELS
+    it0 = Interp(prog, models, {}, unwind=8)
+    servers, handles = server_metadata(prog, it0, GCRATE, r'::__(G\d+)Endpoint<', exclude='AsyncGsvc')
+    if set(servers) < {'g1', 'g2', 'g3'}:
+        raise Inconclusive(f'C04 harness: generated endpoints not found: {servers}')
+    rep.bounds['generated'] = f'generated client (blocking) and generated #[conjure_endpoints] trait of gen-crates/service (real conjure-codegen output; server metadata {servers}); list query argument of 0..2 integers'
+    tenv = {'T': ('path', 'MockClient', ())}
+
+    def mk(rets):
+        tm = {**bodyio.TMODELS, **ep.TMODELS, **models_serde.TMODELS}
+        for g in ('g1', 'g2', 'g3', 'g4'):
+            tm[('Handler', 'Gsvc', g)] = T_handler
+        tm[('MockClient', 'Client', 'send')] = make_send(prog, servers, handles, rets)
+        tm[('MockClient', 'AsyncClient', 'send')] = make_send_async(tm[('MockClient', 'Client', 'send')])
+        it = Interp(prog, models, tm, unwind=3 * L + 8, merge=c11.MERGE)
+        it.ext_consts.update(models_http.CONSTS)
+        it.ext_consts.update(CLIENT_CONSTS)
+        it.ext_consts.update(c18.CONSTS)
+        for tr in ('Client', 'AsyncClient'):
+            it.assoc_types[('MockClient', tr, 'ResponseBody')] = ('path', 'ChunkIter', ())
+            it.assoc_types[('MockClient', tr, 'BodyWriter')] = ('path', 'Out', ())
+        it.const_generic_defaults['N'] = bv(50 * 1024 * 1024)
+        return it
+    # ---- g1
+    it = mk({})
+    dec = Decider(rep, it)
+    st = St()
+    c = GenCase('g1', 'Gsvc')
+    path_arg, header_arg = z3.BitVec('path_arg', 32), z3.BitVec('header_arg', 32)
+    qp, qs = sym_str(st, 'query_arg', L)
+    tok, ts = valid_token(st, 'token')
+    c.args = [tok, path_arg, qp, header_arg]
+    c.syms = {'path_arg': ('i32', path_arg), 'query_arg': ('str', qs), 'header_arg': ('i32', header_arg), 'token': ('token', ts)}
+    run_case(rep, it, dec, prog, c, st, tenv)
+    finish_engine(rep, it)
+    # ---- g2 with 0, 1, 2 list elements
+    for nl in (0, 1, 2):
+        it = mk({})
+        dec = Decider(rep, it)
+        st = St()
+        c = GenCase('g2', 'Gsvc')
+        pp, ps = sym_str(st, 'p_arg', L)
+        oq, oq_has, oq_v = opt_i32(it, 'opt_arg')
+        items = [z3.BitVec(f'lst{i}', 32) for i in range(nl)]
+        lp = st.ref(Seq(tuple(items)))
+        bp, bs = sym_str(st, 'bar_arg', L)
+        b_has = z3.Bool('bar_some')
+        tok, ts = valid_token(st, 'token')
+        c.args = [tok, pp, oq, lp, it.opt(b_has, bp)]
+        c.syms = {'p_arg': ('str', ps), 'opt_arg': ('opt_i32', (oq_has, oq_v)), 'lst_arg': ('list_i32', items), 'bar_arg': ('opt_str', (b_has, bs)), 'token': ('token', ts)}
+        c.refusable = z3.And(b_has, z3.Not(text_header_ok(bs)))
+        run_case(rep, it, dec, prog, c, st, tenv, f'blocking:list{nl}')
+        finish_engine(rep, it)
+    # ---- g3
+    st = St()
+    c = GenCase('g3', 'Gsvc')
+    bp, bs = sym_str(st, 'body_arg', L)
+    rp, rs = sym_str(st, 'ret', L)
+    it = mk({'g3': rs})
+    dec = Decider(rep, it)
+    c.args = [bp]
+    c.ret = rs
+    c.syms = {'body_arg': ('str', bs), 'ret': ('str', rs)}
+    run_case(rep, it, dec, prog, c, st, tenv)
+    finish_engine(rep, it)
+
+
 def run(rep, tier):
+    run_macro(rep, tier)
+    run_generated(rep, tier)
+    twins = [{'op': 'loopback_gen', 'endpoint': 'g1', 'path_arg': -2147483648, 'query_arg': b'/+%'.hex(), 'header_arg': 2147483647, 'token': 'a+/='},
+             {'op': 'loopback_gen', 'endpoint': 'g2', 'p_arg': b'%2F'.hex(), 'opt_arg': None, 'lst_arg': [3, -4], 'bar_arg': b' ~ '.hex(), 'token': 'x=='},
+             {'op': 'loopback_gen', 'endpoint': 'g2', 'p_arg': '', 'opt_arg': -1, 'lst_arg': [], 'bar_arg': None, 'token': 'x'},
+             {'op': 'loopback_gen', 'endpoint': 'g3', 'body_arg': b'"\\\n'.hex(), 'ret': b'\x00\xc3\xa9'.hex()}]
+    for op, nat in zip(twins, replay(twins)):
+        rep.replayed += 1
+        ok, why = native_verdict(op, nat)
+        if not ok:
+            rep.violation(f'C04:{op["endpoint"]}:twin', f'native loopback {op}: {why}', {'op': op, 'native': nat})
+
+
+def run_macro(rep, tier):
     prog = ep.endpoints_program(['conjure_serde'])
     base = [m for m in ep.MODELS if 'private::response' not in m[0]]
     cmods, _ = bodyio.cursor_models(bodyio.Doc(), {})
